@@ -6,8 +6,10 @@
    sees the concatenation); EOF, silence until the deadline and read errors all end the
    decoding of [resp] with an error.
    Only statements, [exact], Print Assumptions, examples. *)
-From FF Require Import model.Bytes model.Msgp model.Forward model.Handshake model.Wf model.Client model.ClientSpec
-  proofs.Handshake_Proofs proofs.Roundtrip_Proofs proofs.Client_Proofs.
+From FF Require Import model.Bytes model.Show model.Msgp model.Forward model.Handshake model.Spec model.AckSpec model.Wf model.Client model.ClientSpec
+  proofs.Chunk_Proofs proofs.Handshake_Proofs proofs.Roundtrip_Proofs proofs.Client_Proofs proofs.AckSpec_Proofs.
+(* [nx f bs]: no value boundary of the encoding carries an ext32 header -- the one header the
+   stream skipper of the msgp dependency cannot pass (recorded finding D18) *)
 Open Scope N_scope.
 
 (* success <-> the whole message was written and the response decodes to an ack whose id is
@@ -25,6 +27,33 @@ Print Assumptions C04_success_iff.
 Theorem C04_matching_ack_decodes : forall ch rest, len ch < two32 -> U_ack Stream (M_ack ch ++ rest) = Ok (ch, rest).
 Proof. intros ch rest. exact (rt_ack Stream ch rest). Qed.
 Print Assumptions C04_matching_ack_decodes.
+
+(* ... and so is ANY msgpack encoding of a conforming response, judged by the independent
+   specification parser (Spec.v), not by the library's own encoder: a map with string keys
+   holding exactly one "ack" entry whose value is the string [a] -- whatever header widths,
+   key order and additional entries the peer chose -- decodes to [a] *)
+Theorem C04_conforming_ack_decodes : forall p f resp l rest a,
+  parse f resp = Some (VMap l, rest) -> str_keys p l ->
+  ack_count l = 1%nat -> In (VStr k_ack, VStr a) l ->
+  (p = Stream -> nx f resp = true) ->
+  U_ack p resp = Ok (a, rest).
+Proof. exact U_ack_complete. Qed.
+Print Assumptions C04_conforming_ack_decodes.
+
+(* conversely, whatever the ack decoder accepts IS one msgpack map by the specification, and
+   the id it reports is the string of the map's last "ack" entry (empty when there is none):
+   by C04_success_iff a send succeeds only if the peer's response is a map that really holds
+   this message's non-empty chunk id under "ack" *)
+Theorem C04_decoded_ack_is_ack_entry : forall p resp a rest, U_ack p resp = Ok (a, rest) -> a <> [] ->
+  exists f l k, parse f resp = Some (VMap l, rest) /\ In (k, VStr a) l /\ (k = VStr k_ack \/ k = VBin k_ack).
+Proof. exact U_ack_nonempty_is_ack_entry. Qed.
+Print Assumptions C04_decoded_ack_is_ack_entry.
+
+Theorem C04_decoded_ack_spec : forall p resp a rest, U_ack p resp = Ok (a, rest) ->
+  exists l, parse1 resp = Some (VMap l, rest) /\
+    match last_ack l with None => a = [] | Some v => v = VStr a end.
+Proof. exact U_ack_sound_parse1. Qed.
+Print Assumptions C04_decoded_ack_spec.
 
 (* the message is on the wire before the ack is awaited, and with a timeout configured the
    read deadline is armed in between: a silent peer cannot make the call hang *)
